@@ -112,8 +112,12 @@ def ob_assemble(ctx):
             mods_data[int(which[1:])] = rot(mods_data[int(which[1:])], rho)
     Mc = generic_class(st, "module", enzyme)
     Vc = generic_class(st, "vector", enzyme)
-    mods = [Mc(st.record.CircularRecord(st.Seq(_conc(d)), id="m%d" % i)) for i, d in enumerate(mods_data)]
-    vec = Vc(st.record.CircularRecord(st.Seq(_conc(vd)), id="vec"))
+    # record identifiers are labels: the product does not depend on whether they are distinct
+    ids = P.get("ids", "distinct")
+    mid = (lambda i: "m%d" % i) if ids == "distinct" else (lambda i: "Exported")
+    vid = "Exported" if ids == "all-same" else "vec"
+    mods = [Mc(st.record.CircularRecord(st.Seq(_conc(d)), id=mid(i))) for i, d in enumerate(mods_data)]
+    vec = Vc(st.record.CircularRecord(st.Seq(_conc(vd)), id=vid))
     order = list(range(c))
     if P.get("reverse_args"):
         order.reverse()
@@ -165,6 +169,10 @@ def obligations(tier, seed):
                 if c >= 2:
                     obs.append(Ob("%s chain=%d p=%d canonical reversed-args" % (e, c, plen), ob_assemble,
                                   dict(base, rotate="none", reverse_args=True), samples=3, cost=c * 30 ** 2))
+                if plen == plens[-1] and (c >= 2 or tier != "quick"):
+                    for ids in ("all-same", "modules-same"):
+                        obs.append(Ob("%s chain=%d p=%d canonical, record ids %s" % (e, c, plen, ids), ob_assemble,
+                                      dict(base, rotate="none", ids=ids), samples=3, cost=c * 30 ** 2, group="ids"))
                 if plen != plens[-1]:
                     continue
                 nv = g.ovl + blen + g.ovl + off + g.L + plen + g.L + off
